@@ -31,8 +31,10 @@ func New(enableWeight bool) *Random {
 }
 
 func (r *Random) Select(_ selector.Message) (endpoint.Endpoint, error) {
-	r.RLock()
-	defer r.RUnlock()
+	// r.rand (*math/rand.Rand) is not safe for concurrent use: Intn mutates its state,
+	// so selecting needs the write lock
+	r.Lock()
+	defer r.Unlock()
 	var ep endpoint.Endpoint
 	if len(r.endpoints) == 0 {
 		return ep, errors.New("random: no such endpoint.Endpoint")
